@@ -4,7 +4,7 @@ CONSTANTS
   MaxDepth = 3
   MaxNest = 2
   Bug = "none"
-  Emit = FALSE
+  Emit = TRUE
   Samples = 0
 INVARIANTS InvVisit EmitInv
 CHECK_DEADLOCK FALSE
